@@ -33,6 +33,7 @@ class FakeSocket(object):
         self.recv_fault = recv_fault      # (call_index, errno)
         self.send_fault = send_fault      # (call_index, errno)
         self.peer = peer
+        self.local = ("127.0.0.1", 8000)  # the accepted connection's own end
         self.out = []                     # list of bytes sent by the server, in order
         self.events = []                  # ("send", n) / ("close",) / ("shutdown",) ...
         self.closed = False
@@ -126,7 +127,7 @@ class FakeSocket(object):
         return 999
 
     def getsockname(self):
-        return ("127.0.0.1", 8000)
+        return self.local
 
     def getpeername(self):
         return self.peer
@@ -368,12 +369,25 @@ class AppProgram(object):
 
         def do_start():
             rec["start_calls"] += 1
+            passed = list(headers)
             try:
-                return start_response(status, list(headers))
+                ret = start_response(status, passed)
             except BaseException as e:      # noqa
                 rec["start_errors"].append(type(e).__name__)
                 rec["raised"] = "start:" + type(e).__name__
                 raise
+            late = p.get("late_headers")
+            if late:
+                # the application goes on using its own list object after the call was accepted: what the server checked is what it sends
+                if late == "append":
+                    passed.append(("X-Late", "v\r\nSet-Cookie: forged=1"))
+                elif late == "replace" and passed:
+                    passed[0] = ("X Late", "x")
+                elif late == "clear":
+                    del passed[:]
+                elif late == "extend":
+                    passed.extend([("X-Late-A", "1"), ("Connection", "keep-alive")])
+            return ret
 
         def do_restart(write=None):
             r = p.get("restart")
